@@ -161,10 +161,9 @@ class NamespaceFunction(Namespace[symtable.Function]):
         self.nonlocal_parameters = set()
         self.outer_nonlocal_map = {}
 
-        if (
-            isinstance(stack[-1], NamespaceClass)
-            and self.symt.get_name() in stack[-1].symt.get_methods()  # type: ignore # todo:don't use get_methods
-        ):
+        if isinstance(stack[-1], NamespaceClass):
+            # Only `def`s get a NamespaceFunction, so a function whose outer namespace is a class is a method.
+            # (`symtable.Class.get_methods` omits methods with private names on Python 3.13 and is deprecated.)
             self.is_method = True
 
         for nonlocal_free in itertools.chain(
